@@ -313,6 +313,9 @@ impl Obs {
             nodes: Vec<(Vec<u8>, Vec<u8>)>,
             /// corrupt the (consistent) parent hash afterwards
             break_parent_hash: bool,
+            /// keep only this many bytes of the (consistent) parent hash: 0 = the empty hash, which only a leaf without a
+            /// path above it may carry
+            truncate_parent_hash: Option<usize>,
             /// replace the leaf's HPKE key / signature key
             leaf_enc: Option<Vec<u8>>,
             leaf_sigkey: Option<Vec<u8>>,
@@ -320,7 +323,7 @@ impl Obs {
             tbs_leaf: u32,
             expect_accept: bool,
         }
-        let base = Plan { name: "resigned_unmodified", nodes: node_raw.clone(), break_parent_hash: false, leaf_enc: None, leaf_sigkey: None, tbs_leaf: leaf, expect_accept: true };
+        let base = Plan { name: "resigned_unmodified", nodes: node_raw.clone(), break_parent_hash: false, truncate_parent_hash: None, leaf_enc: None, leaf_sigkey: None, tbs_leaf: leaf, expect_accept: true };
         // two positive controls: content re-signed around the genuine leaf (must get to the confirmation tag, which covers the
         // new signature), then leaf and content re-signed (accepted outright with deterministic signatures; with randomised
         // ones the HPKE context of the genuine path secrets no longer matches the new leaf bytes, so decapsulation fails)
@@ -337,6 +340,8 @@ impl Obs {
         }
         // (3) wrong parent hash, properly signed
         plans.push(Plan { name: "wrong_parent_hash", break_parent_hash: true, expect_accept: false, ..base.clone() });
+        plans.push(Plan { name: "empty_parent_hash", truncate_parent_hash: Some(0), expect_accept: false, ..base.clone() });
+        plans.push(Plan { name: "truncated_parent_hash", truncate_parent_hash: Some(1 + self.rng.below(31) as usize), expect_accept: false, ..base.clone() });
         // (4) foreign keys: another member's HPKE key / signature key in the committer's new leaf; the committer's old HPKE key
         let others: Vec<u32> = tree.occupied_leaves().into_iter().filter(|l| *l != leaf).collect();
         if let Some(o) = others.get(self.rng.below(others.len().max(1) as u64) as usize).and_then(|o| tree.leaf(*o)).cloned() {
@@ -392,6 +397,9 @@ impl Obs {
             if plan.break_parent_hash {
                 let i = self.rng.below(hash.len() as u64) as usize;
                 hash[i] ^= 0x20;
+            }
+            if let Some(k) = plan.truncate_parent_hash {
+                hash.truncate(k.min(hash.len().saturating_sub(1)));
             }
             // leaf: [encryption_key][signature_key][credential .. source][parent_hash][extensions] + signature
             let mut lbody = vec![];
@@ -689,6 +697,9 @@ impl Obs {
             plans.push((format!("consistent_short_update_path:position {k}"), Tamper { truncate_to: Some(k), ..Default::default() }, true));
         }
         plans.push(("consistent_commit_wrong_confirmation_tag".into(), Tamper { wrong_confirmation_tag: true, ..Default::default() }, true));
+        // the committer's leaf without a parent hash / with a prefix of it: the new path nodes hang in the air
+        plans.push(("consistent_commit_leaf_without_parent_hash".into(), Tamper { leaf_parent_hash_prefix: Some(0), ..Default::default() }, true));
+        plans.push(("consistent_commit_leaf_with_parent_hash_prefix".into(), Tamper { leaf_parent_hash_prefix: Some(1 + self.rng.below(31) as usize), ..Default::default() }, true));
         for (name, tamper, must) in plans {
             let Some(f) = forge(&input, &tamper) else { continue };
             self.ev.class(&format!("insider_forgeries:full:{}", name.split(":position").next().unwrap_or(&name)));
@@ -1092,7 +1103,7 @@ pub fn run(ctx: &Ctx) -> ! {
          parser so that every FIELD is hit as often as long ciphertexts: single-bit flips, byte changes, truncation at random lengths, splices of one field between two valid messages of the same kind. \
          Insider mutators (membership key from the hook, MAC recomputed by the reference model, rebuilt message proven identical for the unmodified case): re-attribution to another member's leaf, wrong and stale \
          confirmation tag, content or authenticated_data changed with a fresh membership tag; structural forgeries by the committer itself (leaf and content re-signed with its keys, parent hash recomputed over the \
-         modified path by the independent tree model, MAC recomputed; two positive controls prove the forger produces acceptable messages): every shorter update path, a longer one, a wrong parent hash, another \
+         modified path by the independent tree model, MAC recomputed; two positive controls prove the forger produces acceptable messages): every shorter update path, a longer one, a wrong / empty / truncated parent hash, another \
          member's HPKE or signature key in the new leaf, the unchanged HPKE key, a leaf signed for another index; and, without the tree model, for every public commit (also tree-changing ones, also for a receiver that the commit removes): one path node too many / too few, a broken leaf signature, the committer's current leaf in place of the path leaf, content re-signed and re-MACed. Out-of-band trees are bit-flipped, truncated and padded with blank nodes (vector length corrected). Receivers: clones of members, the joiner's client (Welcome, tree), an external committer and an observer (GroupInfo). \
          Insider forgeries of a Welcome (GroupInfo opened with the joiner secret, changed, re-sealed for the joiner; unchanged re-sealed control must be accepted): signature bit, signer index, re-signed wrong confirmation tag, re-signed wrong epoch. Cross-epoch replay: GroupInfo messages (with and without tree) and a proposal and a commit made by a discarded clone of a member in epoch n (so no receiver has seen them or consumed their keys) are delivered to every other member in epochs n+1 and n+2. Oracle: never Ok, never a panic; parts of a Welcome addressed to other joiners are exempt; genuine copies are delivered afterwards and must report the true sender, payload and authenticated data. \
          Non-trivial = rejection by an authentication / validation check (error class other than decode, group id, version, epoch); distinct by (message kind, mutation, receiver, epoch).",
